@@ -8,3 +8,8 @@ Lemma tie_split_operator : Extracted.split_operator = 0.    (* `size > MAX_MESSA
 Lemma tie_split_limit : Extracted.split_limit = 0 /\ Extracted.max_message_size = MAX_MESSAGE_SIZE.  Proof. split; reflexivity. Qed.
 Lemma tie_split_early_return : Extracted.split_early_return = 0.   (* n.max(1) = N.max n 1 *)  Proof. reflexivity. Qed.
 Lemma tie_split_shape : Extracted.split_shape = 0 /\ Extracted.split_call = 0.  Proof. split; reflexivity. Qed.
+
+(* PeerWantlist::process_wantlist / wantlist_replace: cap test `len >= MAX` before each insertion (full and update), cancels and
+   undecodable CIDs skipped in a full list, an update split into cancels and additions with the cancels applied first,
+   replacement = set difference both ways — the shape Server.v's pw_full / pw_update implement *)
+Lemma tie_srv_wantlist_shape : Extracted.srv_wantlist_shape = [0; 0; 0; 0].  Proof. reflexivity. Qed.
